@@ -1,2 +1,239 @@
+"""C08 'file' mode: real file-backed stores, process death (fork + os._exit) at every file operation of a whole run."""
+import hashlib
+import json
+import os
+import pickle
+import random
+import shutil
+import tempfile
+import time
+
+from vmon import fsfault
+
+
+def f_b(a):
+    return {"b_of": a, "n": len(str(a))}
+
+
+def f_c(b):
+    return ("c", b["n"] * 2, sorted(b))
+
+
+def f_d(a, c):
+    return [a, list(c)]
+
+
+def f_e(d, b):
+    return {"e": d, "bn": b["n"]}
+
+
+def build(d, shape):
+    import uberjob
+    from uberjob.stores import JsonFileStore, PickleFileStore
+
+    plan = uberjob.Plan()
+    reg = uberjob.Registry()
+    P = lambda n: os.path.join(d, n)
+    stores = {"a": JsonFileStore(P("a.json")), "b": JsonFileStore(P("b.json")), "c": PickleFileStore(P("c.pkl")),
+              "d": JsonFileStore(P("d.json")), "e": JsonFileStore(P("e.json"))}
+    a = reg.source(plan, stores["a"])
+    b = plan.call(f_b, a)
+    reg.add(b, stores["b"])
+    c = plan.call(f_c, b)
+    reg.add(c, stores["c"])
+    nodes = {"a": a, "b": b, "c": c}
+    if shape >= 1:
+        dd = plan.call(f_d, a, c)
+        reg.add(dd, stores["d"])
+        nodes["d"] = dd
+    if shape >= 2:
+        e = plan.call(f_e, nodes["d"], b)
+        reg.add(e, stores["e"])
+        nodes["e"] = e
+    deps = {"b": ["a"], "c": ["b"], "d": ["a", "c"], "e": ["d", "b"]}
+    return plan, reg, stores, nodes, deps
+
+
+def scratch_values(aval, names):
+    v = {"a": aval}
+    v["b"] = f_b(aval)
+    v["c"] = f_c(v["b"])
+    if "d" in names:
+        v["d"] = json.loads(json.dumps(f_d(aval, v["c"])))
+    if "e" in names:
+        v["e"] = json.loads(json.dumps(f_e(v["d"], v["b"])))
+    return v
+
+
+def state(stores, names):
+    st = {}
+    for n in names:
+        p = stores[n].path
+        try:
+            s = os.stat(p)
+            st[n] = (s.st_mtime_ns, s.st_ino)
+        except OSError:
+            st[n] = None
+    return st
+
+
+def ood(st, deps, names):
+    out = {}
+    anc = {}
+    for n in names:
+        if n == "a":
+            out[n] = st[n] is None
+            anc[n] = set()
+            continue
+        a = set()
+        for p in deps[n]:
+            a |= {p} | anc[p]
+        anc[n] = a
+        m = st[n]
+        out[n] = m is None or any(out[x] for x in a) or any(st[x][0] > m[0] for x in a)
+    return out
+
+
+def wait_fs_tick(d):
+    """wait until the file system clock has advanced past the newest file in d"""
+    newest = max([os.stat(os.path.join(d, f)).st_mtime_ns for f in os.listdir(d)] or [0])
+    probe = os.path.join(d, ".probe")
+    for _ in range(2000):
+        with open(probe, "w") as f:
+            f.write("x")
+        if os.stat(probe).st_mtime_ns > newest:
+            break
+        time.sleep(0.001)
+    os.remove(probe)
+
+
 def run_case(desc):
-    return {"status": "ok", "counters": {"file_cases_placeholder": 1}, "nontrivial": False}
+    import uberjob
+
+    rng = random.Random(desc["seed"])
+    shape = rng.choice([0, 1, 2])
+    names = ["a", "b", "c"] + (["d"] if shape >= 1 else []) + (["e"] if shape >= 2 else [])
+    initial = rng.choice(["empty", "stale_after_update", "partial"])
+    W = rng.choice([1, 2])
+    aval0 = {"v": rng.randint(0, 99), "pad": "x" * rng.randint(0, 30)}
+    aval1 = {"v": rng.randint(100, 199)}
+    base = tempfile.mkdtemp(prefix="vmon-c08f-")
+    counters = {"file_cases": 1, "file_cut_positions": 0, "file_cuts_hit": 0, "file_repair_runs": 0, "file_uptodate_checked": 0}
+    bad = None
+    sample = {"desc": desc, "shape": names, "initial": initial}
+    try:
+        # template directory with the initial state
+        tmpl = os.path.join(base, "tmpl")
+        os.mkdir(tmpl)
+        plan, reg, stores, nodes, deps = build(tmpl, shape)
+        stores["a"].write(aval0)
+        aval = aval0
+        if initial != "empty":
+            wait_fs_tick(tmpl)
+            uberjob.run(plan, registry=reg, progress=None, max_workers=1)
+            wait_fs_tick(tmpl)
+            if initial == "stale_after_update":
+                stores["a"].write(aval1)
+                aval = aval1
+            else:
+                victim = rng.choice(names[1:])
+                os.remove(stores[victim].path)
+        wait_fs_tick(tmpl)
+        want = scratch_values(aval, names)
+
+        def fresh_dir(tag):
+            d = os.path.join(base, tag)
+            shutil.copytree(tmpl, d, copy_function=shutil.copy2)
+            for f in os.listdir(tmpl):  # copy2 keeps mtimes; keep directory listing identical
+                pass
+            return d
+
+        # counted run in a forked child (so the parent's state is untouched)
+        d = fresh_dir("count")
+        r_, w_ = os.pipe()
+        pid = os.fork()
+        if pid == 0:
+            try:
+                plan_, reg_, *_ = build(d, shape)
+                pl = fsfault.Plan()
+                with fsfault.Shim(pl, d):
+                    uberjob.run(plan_, registry=reg_, progress=None, max_workers=W)
+                os.write(w_, str(pl.count).encode())
+            finally:
+                os._exit(0)
+        os.close(w_)
+        os.waitpid(pid, 0)
+        K = int(os.read(r_, 64) or b"0")
+        os.close(r_)
+        shutil.rmtree(d, ignore_errors=True)
+        sample["K"] = K
+        if K == 0:
+            return {"status": "inconclusive", "detail": "counted file-backed run performed no file operation"}
+        for k in range(1, K + 1):
+            d = fresh_dir(f"k{k}")
+            counters["file_cut_positions"] += 1
+            pid = os.fork()
+            if pid == 0:
+                try:
+                    plan_, reg_, *_ = build(d, shape)
+                    pl = fsfault.Plan(k=k, action="exit")
+                    with fsfault.Shim(pl, d):
+                        try:
+                            uberjob.run(plan_, registry=reg_, progress=None, max_workers=W)
+                        except BaseException:
+                            pass
+                finally:
+                    os._exit(0)
+            _, status = os.waitpid(pid, 0)
+            if os.WIFEXITED(status) and os.WEXITSTATUS(status) == 137:
+                counters["file_cuts_hit"] += 1
+            plan2, reg2, stores2, nodes2, deps2 = build(d, shape)
+            st = state(stores2, names)
+            o = ood(st, deps2, names)
+            for n in names[1:]:
+                if not o[n]:
+                    counters["file_uptodate_checked"] += 1
+                    try:
+                        got = stores2[n].read()
+                        if isinstance(got, tuple):
+                            got = tuple(got)
+                    except BaseException as e:
+                        bad = f"after process death at file operation {k}/{K}: {n} would be treated as up to date but cannot be read: {e!r}"
+                        break
+                    if got != want[n] and json.loads(json.dumps(got)) != json.loads(json.dumps(want[n])):
+                        bad = f"after process death at file operation {k}/{K}: {n} would be treated as up to date but holds {got!r}, from-scratch value is {want[n]!r}"
+                        break
+            if bad is None:
+                wait_fs_tick(d)
+                try:
+                    uberjob.run(plan2, registry=reg2, progress=None, max_workers=W)
+                except BaseException as e:
+                    bad = f"repair run after process death at file operation {k}/{K} raised {e!r} (cause {e.__cause__!r}); directory: {sorted(os.listdir(d))}"
+                counters["file_repair_runs"] += 1
+                if bad is None:
+                    st2 = state(stores2, names)
+                    for n in names[1:]:
+                        got = stores2[n].read()
+                        if json.loads(json.dumps(got)) != json.loads(json.dumps(want[n])):
+                            bad = f"after the repair run {n} holds {got!r}, from-scratch value is {want[n]!r} (cut at {k}/{K})"
+                            break
+                        if not o[n] and st2[n] != st[n]:
+                            bad = f"{n} was completely written before the cut at file operation {k}/{K} and nothing upstream changed, yet the repair run rewrote it"
+                            break
+                    left = [f for f in os.listdir(d) if f.endswith(".STAGING")]
+                    if bad is None and left and any(f[: -len(".STAGING")] in [os.path.basename(stores2[n].path) for n in names if o[n]] for f in left):
+                        bad = f"staging files of rebuilt stores left behind after the repair run: {left}"
+            if bad:
+                sample["failing"] = {"k": k, "listing": sorted(os.listdir(d)), "state": {n: st[n] for n in names}, "ood": o}
+            shutil.rmtree(d, ignore_errors=True)
+            if bad:
+                break
+    finally:
+        shutil.rmtree(base, ignore_errors=True)
+    res = {"status": "ok", "counters": counters, "nontrivial": counters["file_cuts_hit"] > 2,
+           "sig": hashlib.sha1(f"file|{shape}|{initial}|{W}|{desc['seed'] % 1000}".encode()).hexdigest()[:16]}
+    if desc["seed"] % 4 == 0 or bad:
+        res["sample"] = sample
+    if bad:
+        res.update(status="violation", detail=f"[file-backed {names} initial={initial} W={W}] {bad}", mechanism="cut-repair-file", witness=sample)
+    return res
